@@ -8,6 +8,7 @@
     pairwise distinct sessions and idle clients -- node table and local maps arbitrary (possibly stale). *)
 From Coq Require Import ZArith List Bool.
 From TM Require Import Node.Presence Node.PresenceP.
+From TM Require Import Base.ShapeCanon.
 Import ListNotations.
 Open Scope Z_scope.
 
@@ -78,3 +79,10 @@ Example C17_nonvacuous :
    | None => False
    end).
 Proof. vm_compute. repeat split. Qed.
+
+(** the functions named by this property's anchors still have the statement skeleton the model was written from
+    (re-extracted from the Python AST on every run, harness/tables_shape.py + harness/shape_pins.json; kept last so that
+    a difference does not stop the theorems above from being checked) *)
+Theorem C17_source_shape : shapes_ok_C17 = true.
+Proof. vm_compute. reflexivity. Qed.
+Print Assumptions C17_source_shape.
